@@ -22,7 +22,12 @@ def run(tier):
     jobs = []
 
     def add(n, conn, meas, comps):
-        jobs.append({"N": n, "m": n, "list": None, "conn": conn, "comps": comps, "kind": "stab", "meas": meas, "full": True, "dm": n <= 3})
+        lst = None
+        if len(jobs) % 5 == 4:      # the documented explicit form: all qubits listed, in another order (the k-th stabilizer qubit is measured on qubit list[k])
+            lst = list(range(n))
+            while lst == sorted(lst):
+                rng.shuffle(lst)
+        jobs.append({"N": n, "m": n, "list": lst, "conn": conn, "comps": comps, "kind": "stab", "meas": meas, "full": rng.random() < 0.7 if lst else True, "dm": n <= 3})
 
     for n in (2, 3):
         sts = models.clifford_states(ck, n, signed=True, dump=True, invariants=("TypeOK",), names1=("h", "s", "x"), names2=("cx",))
